@@ -6,8 +6,8 @@ import numpy as np
 ID = "C05"
 LEVEL = "exploration"
 RULE = (
-    "cases = models from a template with up to 5 states of pairwise different grid sizes (restricted "
-    "discrete r1(2), r2(3); unrestricted discrete e(4); continuous w(5, linear), z(6, log)) and up to 3 "
+    "cases = models from a template with up to 6 states of pairwise different grid sizes (restricted "
+    "discrete r1(2), r2(3); unrestricted discrete e(4), g(5), one of them possibly stochastic; continuous w(6, linear), z(7, log)) and up to 3 "
     "choices, asymmetric utility in every state, period-dependent filter (row count changes over time) and "
     "period-dependent utility (a reversed list is visible); declaration orders of states/choices/functions "
     "permuted (all permutations of <= 4 states for one fixed model in the thorough tier, sampled in quick); "
@@ -22,7 +22,7 @@ TIMEOUT = {"quick": 1500, "thorough": 7200}
 FLOORS = {"quick": {"arrays_checked": 200, "entries_compared": 15000, "declaration_orders": 60},
           "thorough": {"arrays_checked": 1800, "entries_compared": 200000, "declaration_orders": 700}}
 
-ALL_STATES = ["r1", "r2", "e", "w", "z"]
+ALL_STATES = ["r1", "r2", "e", "g", "w", "z"]
 
 
 def plan(tier, seed):
@@ -45,14 +45,16 @@ def template_desc(rng, fixed_states=None, state_perm=None):
     if fixed_states is None:
         k = int(rng.integers(1, 6))
         sts = [str(x) for x in rng.permutation(ALL_STATES)[:k]]
+        if rng.random() < 0.4 and "e" in sts and "g" not in sts:
+            sts.append("g")  # two unrestricted discrete states
         if ("r1" in sts or "r2" in sts) is False and rng.random() < 0.5:
             sts[0] = "r1"
         sts = list(dict.fromkeys(sts))
     else:
         sts = list(fixed_states)
     T = int(rng.integers(2, 5))
-    spec = {"r1": {"kind": "disc", "n": 2}, "r2": {"kind": "disc", "n": 3}, "e": {"kind": "disc", "n": 4},
-            "w": {"kind": "lin", "start": 1.0, "stop": 9.0, "n": 5}, "z": {"kind": "log", "start": 0.5, "stop": 8.0, "n": 6}}
+    spec = {"r1": {"kind": "disc", "n": 2}, "r2": {"kind": "disc", "n": 3}, "e": {"kind": "disc", "n": 4}, "g": {"kind": "disc", "n": 5},
+            "w": {"kind": "lin", "start": 1.0, "stop": 9.0, "n": 6}, "z": {"kind": "log", "start": 0.5, "stop": 8.0, "n": 7}}
     cspec = {"c": {"kind": "disc", "n": 2}, "d": {"kind": "disc", "n": 3}, "x": {"kind": "lin", "start": 0.2, "stop": 3.0, "n": 4}}
     restricted = [s for s in ("r1", "r2") if s in sts]
     chs = ["c"] if restricted else []
@@ -95,7 +97,7 @@ def template_desc(rng, fixed_states=None, state_perm=None):
         for j, r in enumerate(restricted):
             fns.append([f"next_{r}", [sel], f"xp.where({sel} == 0, {int(a[j])}, {int(b[j])})"])
             params[f"next_{r}"] = {}
-    coef = {"r1": 0.731, "r2": -0.419, "e": 0.283, "w": 0.0617, "z": 0.1093}
+    coef = {"r1": 0.731, "r2": -0.419, "e": 0.283, "g": -0.157, "w": 0.0617, "z": 0.1093}
     terms = [f"{coef[s]} * {s} * (1 + 0.37 * _period)" for s in sts]
     if "w" in sts and "z" in sts:
         terms.append("0.013 * w * z")
@@ -103,6 +105,8 @@ def template_desc(rng, fixed_states=None, state_perm=None):
         terms.append("0.021 * e * w")
     if "r2" in sts and "e" in sts:
         terms.append("0.057 * r2 * e * e")
+    if "e" in sts and "g" in sts:
+        terms.append("0.033 * e * g * g")
     for c in chs:
         terms.append({"c": "0.113 * c", "d": "-0.071 * d * d + 0.09 * d", "x": "0.4 * xp.log(x + 0.3)"}[c])
     if "x" in chs and "w" in sts:
@@ -111,12 +115,24 @@ def template_desc(rng, fixed_states=None, state_perm=None):
         terms.append(f"0.05 * c * {restricted[0]}")
     fns.append(["utility", sts + chs + ["_period"], " + ".join(terms)])
     params["utility"] = {}
-    if "e" in sts:
-        if "d" in chs:
-            fns.append(["next_e", ["e", "d"], "(e + d) % 4"])
+    stochastic = []
+    st_pick = str(rng.choice(["none", "e", "g"], p=[0.4, 0.3, 0.3]))
+    for name, n in (("e", 4), ("g", 5)):
+        if name not in sts:
+            continue
+        if st_pick == name:
+            # a stochastic unrestricted discrete state (declared before or after the deterministic one)
+            deps = [name] + (["d"] if "d" in chs and rng.random() < 0.5 else [])
+            dims = [n] + ([3] if len(deps) > 1 else []) + [n]
+            P = rng.random(dims) + 0.05
+            params.setdefault("shocks", {})[name] = (P / P.sum(-1, keepdims=True)).tolist()
+            fns.append([f"next_{name}", deps, "None"])
+            stochastic.append(f"next_{name}")
+        elif "d" in chs:
+            fns.append([f"next_{name}", [name, "d"], f"({name} + d) % {n}"])
         else:
-            fns.append(["next_e", ["e"], "(e + 1) % 4"])
-        params["next_e"] = {}
+            fns.append([f"next_{name}", [name], f"({name} + 1) % {n}"])
+        params[f"next_{name}"] = {}
     if "w" in sts:
         if "x" in chs:
             fns.append(["next_w", ["w", "x"], "0.9 * w + 0.3 * x + 0.4"])
@@ -133,7 +149,7 @@ def template_desc(rng, fixed_states=None, state_perm=None):
     chs_decl = [str(x) for x in rng.permutation(chs)]
     fns = [fns[i] for i in rng.permutation(len(fns))]
     return {"n_periods": T, "states": [[s, spec[s]] for s in sts_decl], "choices": [[c, cspec[c]] for c in chs_decl],
-            "functions": fns, "stochastic": [], "tables": tables, "params": params}
+            "functions": fns, "stochastic": stochastic, "tables": tables, "params": params}
 
 
 def run_case(case):
